@@ -217,6 +217,11 @@ func bitPreciseLemma(lemma string, ki *KernelInfo, x, y *Term) ([]*Term, *Term) 
 			}
 			lo, hi := fpOp("fp.mul", "RTN", xd, fs), fpOp("fp.mul", "RTP", xd, fs)
 			assume = []*Term{fpLt(mone, xd), fpLt(xd, one)}
+			if lemma == "accuracy-nonpositive" {
+				assume = append(assume, fpLe(xd, fp64(big.NewInt(0))))
+			} else {
+				assume = append(assume, mk("fp.gt", SBool, xd, fp64(big.NewInt(0))))
+			}
 			goal = And(fpLe(fpOp("fp.sub", "RNE", A, one), lo), fpLe(hi, fpOp("fp.add", "RNE", A, one)))
 		default:
 			return nil, nil
